@@ -1220,7 +1220,7 @@ fn oracle_i2c(r: &Req, out: &str) -> Result<(), String> {
 fn channels() -> Vec<Channel> {
     vec![
         Channel { name: "upd.seq", tol: Tol::Exact, run: run_seq, oracle: Some(oracle_seq), modelled: true,
-            rust_fn: "DefaultSolver::update_P/update_q/update_A/update_b/update_data, *::update_matrix/update_vector, DirectLDLKKTSolver::update_P/update_A, QDLDLFactorisation::update_values, DefaultProblemData::get_normq/get_normb",
+            rust_fn: "DefaultSolver::update_P/update_q/update_A/update_b/update_data, *::update_matrix/update_vector, DirectLDLKKTSolver::update_P/update_A, QDLDLFactorisation::update_values, DefaultProblemData::get_normq/get_normb/clear_normq/clear_normb (cache dropped by update_q/update_b), check_data_update_allowed -> DefaultProblemData::is_presolved (rejection of updates on a presolved problem)",
             lean: "Update.step / C08.refines_spec, kkt_in_sync, norm_cache, rejects_leave_untouched" },
         Channel { name: "upd.index_to_coord", tol: Tol::Exact, run: run_i2c, oracle: Some(oracle_i2c), modelled: true,
             rust_fn: "CscMatrix::index_to_coord", lean: "Update.colOf / Update.rowOf" },
